@@ -687,3 +687,413 @@ class FloatSumStream(Stream):
             if len(case["bats"]) > 1:
                 yield {**case, "bats": [x for x in case["bats"] if x != b], "edges": [e for e in case["edges"] if e[1] != b],
                        "working": [x for x in case["working"] if x != b]}
+
+
+# ----------------------------------------------------------------------------- the STREAMED bounds vs the manager
+# C17 is about "the bounds streamed by a battery pool".  This stream runs the real bounds stream
+# (BatteryPoolReferenceStore + BatteryPool._system_power_bounds: SendOnUpdate + PowerBoundsCalculator +
+# battery / inverter metric fetchers) and a BatteryManager's real data path (`_create_channels` ->
+# LatestValueCache per component, `_get_components_data`, `_get_bounds`, `_check_request`) off the SAME
+# fake API data channels on async_solipsism virtual time.  The working set is one value controlled by
+# the harness: it is sent on the pool's status channel and answered by the manager's status tracker
+# stub (in the SDK the manager's tracker is what feeds that channel).
+#
+# Case (JSON): {"groups": [[[battery ids], [inverter ids]], ...], "init": {"<cid>": [V, V, V, V]},
+#               "script": [OP, ...], "deltas": [[n, d], ...]}
+#   OP = {"op": "status", "working": [ids]} | {"op": "request"} | {"op": "data", "id": cid, "b": [V, V, V, V]}
+#      | {"op": "burst", "gap": [n, d], "ops": [OP, ...]}
+# After every OP: SETTLE virtual seconds, then the LATEST streamed SystemBounds is compared with what the
+# manager enforces for the same latest data (and with the model on the snapshot).
+S_SETTLE = 6.0
+S_PERIOD = 0.5
+
+
+def _stream_imports():
+    import async_solipsism
+    from datetime import timedelta
+    from frequenz.channels import Broadcast
+    from frequenz.client.microgrid import (BatteryComponentState, BatteryData, BatteryRelayState, Component,
+                                           ComponentCategory, Connection, InverterComponentState, InverterData, InverterType)
+    from frequenz.sdk._internal._channels import ChannelRegistry
+    from frequenz.sdk.microgrid._power_distributing import ComponentPoolStatus
+    from frequenz.sdk.microgrid.component_graph import _MicrogridComponentGraph
+    from frequenz.sdk.timeseries.battery_pool import BatteryPool
+    from frequenz.sdk.timeseries.battery_pool._battery_pool_reference_store import BatteryPoolReferenceStore
+    return NS(**locals())
+
+
+def stream_snapshots(case):
+    """Independent bookkeeping: working set, latest data and whether the stream is requested, per step."""
+    st = {"working": set(), "req": False}
+    data = {int(k): list(v) for k, v in case["init"].items()}
+    allb = {b for g in case["groups"] for b in g[0]}
+
+    def apply(op):
+        k = op["op"]
+        if k == "status":
+            st["working"] = set(op["working"]) & allb
+        elif k == "request":
+            st["req"] = True
+        elif k == "data":
+            data[op["id"]] = list(op["b"])
+        elif k == "burst":
+            for sub in op["ops"]:
+                apply(sub)
+    out = []
+    for op in case["script"]:
+        apply(op)
+        out.append({"working": sorted(st["working"]), "requested": st["req"], "data": {str(c): list(v) for c, v in data.items()},
+                    "groups": [g for g in case["groups"] if set(g[0]) & st["working"]]})
+    return out
+
+
+def run_stream(case):
+    I, J = _imports(), _stream_imports()
+    bats = sorted(b for g in case["groups"] for b in g[0])
+    invs = sorted(i for g in case["groups"] for i in g[1])
+    comps = {J.Component(1, J.ComponentCategory.GRID), J.Component(2, J.ComponentCategory.METER)}
+    conns = {J.Connection(1, 2)}
+    for gb, gi in case["groups"]:
+        for i in gi:
+            comps.add(J.Component(i, J.ComponentCategory.INVERTER, J.InverterType.BATTERY))
+            conns.add(J.Connection(2, i))
+        for b in gb:
+            comps.add(J.Component(b, J.ComponentCategory.BATTERY))
+            conns |= {J.Connection(i, b) for i in gi}
+
+    class Api:
+        def __init__(self):
+            self.ch = {}
+
+        def chan(self, cid):
+            if cid not in self.ch:
+                self.ch[cid] = J.Broadcast(name=f"data-{cid}", resend_latest=False)
+            return self.ch[cid]
+
+        async def battery_data(self, cid, maxsize=50):
+            return self.chan(cid).new_receiver(limit=maxsize)
+
+        async def inverter_data(self, cid, maxsize=50):
+            return self.chan(cid).new_receiver(limit=maxsize)
+    api = Api()
+    fake = NS(component_graph=J._MicrogridComponentGraph(comps, conns), api_client=api)
+
+    async def scenario():
+        import asyncio as aio
+        loop = aio.get_running_loop()
+        status = J.Broadcast(name="battery-status", resend_latest=True)
+        status_tx = status.new_sender()
+        unused = J.Broadcast(name="unused")
+        store = J.BatteryPoolReferenceStore(
+            channel_registry=J.ChannelRegistry(name="verif"), resampler_subscription_sender=unused.new_sender(),
+            batteries_status_receiver=status.new_receiver(limit=1), power_manager_requests_sender=unused.new_sender(),
+            power_manager_bounds_subscription_sender=unused.new_sender(), power_distribution_results_fetcher=unused,
+            min_update_interval=J.timedelta(seconds=0.2), batteries_id=set(bats))
+        pool = J.BatteryPool(pool_ref_store=store, name="verif", priority=5, set_operating_point=False)
+        # the manager's real data path off the same API
+        mgr = I.bm.BatteryManager.__new__(I.bm.BatteryManager)
+        maps = I.bm._get_battery_inverter_mappings(set(bats))
+        mgr._bat_invs_map, mgr._inv_bats_map = maps["bat_invs"], maps["inv_bats"]
+        mgr._bat_bats_map, mgr._inv_invs_map = maps["bat_bats"], maps["inv_invs"]
+        mgr._battery_caches, mgr._inverter_caches = {}, {}
+        await mgr._create_channels()
+        working = set()
+        mgr._component_pool_status_tracker = NS(get_working_components=lambda ids: set(working) & set(ids))
+        cur = {int(k): list(v) for k, v in case["init"].items()}
+        senders = {c: api.chan(c).new_sender() for c in bats + invs}
+        num = lambda v: X(fr(v))
+
+        async def send_now(c):
+            v = [num(x) for x in cur[c]]
+            ts = BASE_TS_S + J.timedelta(seconds=loop.time())
+            if c in bats:
+                await senders[c].send(J.BatteryData(
+                    component_id=c, timestamp=ts, soc=X(50), soc_lower_bound=X(0), soc_upper_bound=X(100), capacity=X(1),
+                    power_inclusion_lower_bound=v[0], power_exclusion_lower_bound=v[1], power_exclusion_upper_bound=v[2],
+                    power_inclusion_upper_bound=v[3], temperature=20.0, relay_state=J.BatteryRelayState.CLOSED,
+                    component_state=J.BatteryComponentState.IDLE, errors=[]))
+            else:
+                await senders[c].send(J.InverterData(
+                    component_id=c, timestamp=ts, active_power=0.0, active_power_per_phase=(0.0, 0.0, 0.0), reactive_power=0.0,
+                    reactive_power_per_phase=(0.0, 0.0, 0.0), current_per_phase=(0.0, 0.0, 0.0), voltage_per_phase=(0.0, 0.0, 0.0),
+                    active_power_inclusion_lower_bound=v[0], active_power_exclusion_lower_bound=v[1],
+                    active_power_exclusion_upper_bound=v[2], active_power_inclusion_upper_bound=v[3], frequency=50.0,
+                    component_state=J.InverterComponentState.IDLE, errors=[]))
+
+        async def streamer():
+            while True:
+                for c in bats + invs:
+                    await send_now(c)
+                await aio.sleep(S_PERIOD)
+
+        log = []
+        tasks = [aio.create_task(streamer())]
+
+        async def collect(rx):
+            async for sb in rx:
+                if sb.inclusion_bounds is None or sb.exclusion_bounds is None:
+                    log.append((None, sb))
+                else:
+                    log.append(([enc(tofr(sb.inclusion_bounds.lower.as_watts())), enc(tofr(sb.exclusion_bounds.lower.as_watts())),
+                                 enc(tofr(sb.exclusion_bounds.upper.as_watts())), enc(tofr(sb.inclusion_bounds.upper.as_watts()))], sb))
+
+        async def do(op):
+            k = op["op"]
+            if k == "status":
+                working.clear()
+                working.update(set(op["working"]) & set(bats))
+                await status_tx.send(J.ComponentPoolStatus(working=set(op["working"]), uncertain=set()))
+            elif k == "request":
+                if len(tasks) == 1:
+                    tasks.append(aio.create_task(collect(pool._system_power_bounds.new_receiver())))
+            elif k == "data":
+                cur[op["id"]] = list(op["b"])
+                if op.get("now", True):
+                    await send_now(op["id"])
+            elif k == "burst":
+                for sub in op["ops"]:
+                    await do(sub)
+                    await aio.sleep(float(fr(op["gap"])))
+
+        checkpoints = []
+        try:
+            for op in case["script"]:
+                await do(op)
+                await aio.sleep(S_SETTLE)
+                cp = {"requested": len(tasks) > 1}
+                if cp["requested"]:
+                    cp["adv"] = log[-1][0] if log else None
+                    cp["emitted"] = len(log)
+                pairs = mgr._get_components_data(set(mgr._bat_invs_map))
+                if pairs:
+                    eb = mgr._get_bounds(pairs)
+                    enf = [tofr(eb.inclusion_lower), tofr(eb.exclusion_lower), tofr(eb.exclusion_upper), tofr(eb.inclusion_upper)]
+                    cp["enf"] = [enc(v) for v in enf]
+                    if cp.get("adv") is not None:
+                        adv = [fr(v) for v in cp["adv"]]
+                        sb = log[-1][1]
+                        probes = []
+                        for p in probe_values({"deltas": case.get("deltas", [[1, 1000], [1, 1]])}, adv, enf):
+                            P = I.Power.from_watts(X(p))
+                            res = {"p": enc(p), "contains": P in sb}
+                            for name, adj in (("adj", True), ("noadj", False)):
+                                r = mgr._check_request(I.Request(power=P, component_ids=set(mgr._bat_invs_map), adjust_power=adj), pairs)
+                                res[name] = "ok" if r is None else ("oob" if isinstance(r, I.OutOfBounds) else "error")
+                            probes.append(res)
+                        cp["probes"] = probes
+                else:
+                    cp["enf"] = None
+                checkpoints.append(cp)
+        finally:
+            for t in tasks:
+                t.cancel()
+            await aio.gather(*tasks, return_exceptions=True)
+            for c in list(mgr._battery_caches.values()) + list(mgr._inverter_caches.values()):
+                await c.stop()
+            await store.stop()
+        return {"checkpoints": checkpoints}
+
+    import asyncio as aio
+    old = I.connection_manager._CONNECTION_MANAGER
+    I.connection_manager._CONNECTION_MANAGER = fake
+    try:
+        with aio.Runner(loop_factory=J.async_solipsism.EventLoop) as runner:
+            return runner.run(scenario())
+    finally:
+        I.connection_manager._CONNECTION_MANAGER = old
+
+
+BASE_TS_S = datetime(2020, 1, 1, tzinfo=timezone.utc)
+
+STREAM_HEADER = """From Coq Require Import QArith.
+From Verif Require Import model.Common model.PoolBounds.
+Open Scope Q_scope.
+Definition t4_eqb (a : pb) (b : Q * Q * Q * Q) : bool :=
+  let '(x1, x2, x3, x4) := b in pb_eqb a (mkPB x1 x2 x3 x4).
+Definition opt4_eqb (a : option pb) (b : option (Q * Q * Q * Q)) : bool :=
+  match a, b with None, None => true | Some x, Some y => t4_eqb x y | _, _ => false end.
+(* per checkpoint: the groups with a working battery and their latest complete data; the latest
+   streamed bounds if the stream is requested (outer None = not requested); what the manager enforces
+   (None = no pairs); probes (power, (in SystemBounds, (accepted with adjust_power, without))) *)
+Definition check1 (c : list cgroup * option (option (Q * Q * Q * Q)) * option (Q * Q * Q * Q)
+                       * list (Q * (bool * (bool * bool)))) : bool :=
+  let '(cgs, eadv, eenf, probes) := c in
+  let adv := advertised (map wrap cgs) in
+  let enf := enforced (map pair_of cgs) in
+  match eadv with Some e => opt4_eqb adv e | None => true end &&
+  match eenf with Some e => t4_eqb enf e | None => match cgs with [] => true | _ => false end end &&
+  forallb (fun q => let '(p, (c, (a, n))) := q in
+             Bool.eqb (adv_contains adv p) c && Bool.eqb (check_request true enf p) a &&
+             Bool.eqb (check_request false enf p) n) probes.
+Definition check (c : list (list cgroup * option (option (Q * Q * Q * Q)) * option (Q * Q * Q * Q)
+                            * list (Q * (bool * (bool * bool))))) : bool := forallb check1 c.
+"""
+
+
+class BoundsStreamStream(Stream):
+    name = "stream"
+    coq_header = STREAM_HEADER
+    n_quick = 150
+    n_thorough = 2500
+
+    def gen(self, rng, tier):
+        yield from stream_boundary_cases()
+        for _ in range(self.n_quick if tier == "quick" else self.n_thorough):
+            yield gen_stream_case(rng)
+
+    def run_impl(self, case):
+        try:
+            return run_stream(case)
+        except Exception as exc:
+            return {"error": f"{type(exc).__name__}: {exc}"}
+
+    def to_coq(self, case, obs):
+        if "error" in obs:
+            return None
+        items = []
+        for snap, cp in zip(stream_snapshots(case), obs["checkpoints"]):
+            pbq = lambda c: "(mkPB " + " ".join(cQ(fr(x)) for x in snap["data"][str(c)]) + ")"
+            cgs = "[" + "; ".join("([" + "; ".join(pbq(b) for b in g[0]) + "], [" + "; ".join(pbq(i) for i in g[1]) + "])"
+                                  for g in snap["groups"]) + "]"
+            if cp["requested"]:
+                eadv = "(Some None)" if cp.get("adv") is None else f"(Some (Some {c_tuple4(cp['adv'])}))"
+            else:
+                eadv = "None"
+            eenf = "None" if cp.get("enf") is None else f"(Some {c_tuple4(cp['enf'])})"
+            if any(pr["adj"] == "error" or pr["noadj"] == "error" for pr in cp.get("probes", [])):
+                return None
+            probes = "[" + "; ".join(
+                f"({cQ(fr(pr['p']))}, ({cbool(bool(pr['contains']))}, ({cbool(pr['adj'] == 'ok')}, {cbool(pr['noadj'] == 'ok')})))"
+                for pr in cp.get("probes", [])) + "]"
+            items.append(f"({cgs}, {eadv}, {eenf}, {probes})")
+        return "[" + "; ".join(items) + "]"
+
+    def oracle(self, case, obs):
+        if "error" in obs:
+            return [{"what": f"crash: pool / manager wiring raised {obs['error']}", "finding": None}]
+        out = []
+        hit = lambda w: out.append({"what": w, "finding": None})
+        for i, (snap, cp) in enumerate(zip(stream_snapshots(case), obs["checkpoints"])):
+            if not cp["requested"]:
+                continue
+            where = f"after step {i} ({case['script'][i]})"
+            if cp.get("enf") is None:
+                if cp.get("adv") is not None and not snap["groups"]:
+                    hit(f"stream: {where} no battery works but the pool still streams bounds {[str(fr(v)) for v in cp['adv']]}")
+                continue
+            enf = [fr(v) for v in cp["enf"]]
+            if cp.get("adv") is None:
+                hit(f"stream: {where} the manager enforces {[str(v) for v in enf]} but the pool's latest streamed bounds are None")
+                continue
+            il, el, eu, iu = adv = [fr(v) for v in cp["adv"]]
+            if (il, iu) != (enf[0], enf[3]):
+                hit(f"stream: {where} the latest streamed inclusion bounds ({il}, {iu}) differ from the enforced "
+                    f"({enf[0]}, {enf[3]}) for the same latest data")
+            if not (enf[2] <= eu and el <= enf[1]):
+                hit(f"stream: {where} the enforced exclusion bounds ({enf[1]}, {enf[2]}) are not inside the latest streamed ({el}, {eu})")
+            for pr in cp.get("probes", []):
+                p = fr(pr["p"])
+                if (il <= p <= iu and (p <= el or p >= eu)) or pr["contains"]:
+                    for mode in ("adj", "noadj"):
+                        if pr[mode] != "ok":
+                            hit(f"stream: {where} power {p} is inside the latest streamed bounds incl=({il}, {iu}) excl=({el}, {eu}) "
+                                f"but _check_request(adjust_power={mode == 'adj'}) answered {pr[mode]} "
+                                f"(enforced {tuple(str(v) for v in enf)})")
+        return out
+
+    def key(self, case, obs):
+        if "error" in obs or not any(cp.get("adv") for cp in obs["checkpoints"]):
+            return None
+        return json.dumps(case, sort_keys=True)
+
+    def labels(self, case, obs):
+        if "error" in obs:
+            return ["impl_error"]
+        flat = lambda ops: [x for o in ops for x in ([o] if o["op"] != "burst" else flat(o["ops"]))]
+        sc = flat(case["script"])
+        out = [f"groups={len(case['groups'])}", f"steps={len(case['script'])}"]
+        if any(len(g[0]) > 1 for g in case["groups"]):
+            out.append("shared_inverter_set")
+        if any(o["op"] == "burst" for o in case["script"]):
+            out.append("burst")
+        bset = {b for g in case["groups"] for b in g[0]}
+        w = set()
+        for o in sc:
+            if o["op"] == "status":
+                w = set(o["working"])
+            if o["op"] == "data":
+                if o["id"] in bset:
+                    mates = next(set(g[0]) for g in case["groups"] if o["id"] in g[0])
+                    if o["id"] not in w and (mates & w):
+                        out.append("data_change_on_non_working_battery_of_a_working_set")
+                    elif o["id"] in w:
+                        out.append("data_change_on_working_battery")
+                    else:
+                        out.append("data_change_on_battery_of_idle_set")
+                else:
+                    out.append("data_change_on_inverter")
+        for cp in obs["checkpoints"]:
+            if cp["requested"]:
+                out.append("checkpoint_with_bounds" if cp.get("adv") else "checkpoint_without_bounds")
+        return out
+
+    def shrink(self, case):
+        sc = case["script"]
+        for i in range(len(sc)):
+            yield {**case, "script": sc[:i] + sc[i + 1:]}
+        for i, o in enumerate(sc):
+            if o["op"] == "burst" and len(o["ops"]) > 1:
+                for j in range(len(o["ops"])):
+                    yield {**case, "script": sc[:i] + [{**o, "ops": o["ops"][:j] + o["ops"][j + 1:]}] + sc[i + 1:]}
+        if len(case["groups"]) > 1:
+            for gi, g in enumerate(case["groups"]):
+                gone = set(g[0]) | set(g[1])
+                keep = lambda o: not (o["op"] == "data" and o["id"] in gone)
+                yield {**case, "groups": case["groups"][:gi] + case["groups"][gi + 1:],
+                       "init": {k: v for k, v in case["init"].items() if int(k) not in gone},
+                       "script": [({**o, "ops": [x for x in o["ops"] if keep(x)]} if o["op"] == "burst" else o) for o in sc if keep(o)]}
+        if len(case.get("deltas", [])) > 1:
+            yield {**case, "deltas": case["deltas"][:1]}
+
+
+def gen_stream_case(rng):
+    grid = [F(5, 8), F(37, 4), F(7, 3), F(1000, 3)]
+    groups, nxt = [], 3
+    for _ in range(rng.choice([1, 1, 2, 2, 3])):
+        nb, ni = rng.choice([1, 2, 2, 3]), rng.choice([1, 1, 2])
+        bs = list(range(nxt, nxt + nb)); nxt += nb
+        is_ = list(range(nxt, nxt + ni)); nxt += ni
+        groups.append([bs, is_])
+    bats = [b for g in groups for b in g[0]]
+    comps = bats + [i for g in groups for i in g[1]]
+    init = {str(c): gen_bounds(rng, grid) for c in comps}
+    subset = lambda: sorted(b for b in bats if rng.random() < 0.6)
+    script = [{"op": "request"}]
+    if rng.random() < 0.9:
+        script.insert(rng.randint(0, 1), {"op": "status", "working": subset()})
+    for _ in range(rng.randint(2, 5)):
+        r = rng.random()
+        if r < 0.3:
+            script.append({"op": "status", "working": subset()})
+        elif r < 0.85:
+            # bounds of a battery (working or not) or of an inverter change
+            script.append({"op": "data", "id": rng.choice(comps if rng.random() < 0.3 else bats), "b": gen_bounds(rng, grid)})
+        else:
+            subs = [{"op": "status", "working": subset()} for _ in range(rng.randint(2, 3))]
+            if rng.random() < 0.5:
+                subs.insert(rng.randrange(len(subs) + 1), {"op": "data", "id": rng.choice(comps), "b": gen_bounds(rng, grid)})
+            script.append({"op": "burst", "gap": enc(rng.choice([F(1, 100), F(1, 10)])), "ops": subs})
+    return {"groups": groups, "init": init, "script": script,
+            "deltas": [enc(rng.choice([F(1, 1000), F(1, 10 ** 6)])), enc(rng.choice([F(1), F(17)]))]}
+
+
+def stream_boundary_cases():
+    E = lambda *v: [enc(F(x)) for x in v]
+    init = {"3": E(-2000, -100, 100, 2000), "4": E(-2200, -70, 70, 2200), "5": E(-5000, -50, 50, 5000)}
+    S = lambda *w: {"op": "status", "working": list(w)}
+    return [
+        # batteries 3 and 4 share inverter 5; only 3 works; the bounds of the NOT working battery 4 change
+        {"groups": [[[3, 4], [5]]], "init": init, "deltas": [[1, 1000], [1, 1]],
+         "script": [S(3), {"op": "request"}, {"op": "data", "id": 4, "b": E(-1900, -170, 170, 1900)},
+                    {"op": "data", "id": 5, "b": E(-3000, -20, 20, 3000)}, S(3, 4), S()]},
+    ]
